@@ -4,6 +4,7 @@ import c11lib as L
 NAME = "star_battle"
 MODULE = "cspuz.puzzle.star_battle"
 FUNC = "solve_star_battle"
+TIER1 = ("StarBattle", "solve_star_battle_model")
 
 
 def call(mod, pb):
@@ -44,3 +45,22 @@ def tier2(tier, rng):
         for b in L.sample(rng, _parts(n), 20 if th else 4):
             for k in (1, 2):
                 yield {"n": n, "k": k, "blocks": b}
+
+
+def tier1_problems(tier, rng):
+    """program-capture tie: all region layouts of the tiniest boards, random larger ones, k = 0..3"""
+    th = tier == "thorough"
+    import c11.norinori as nn
+    yield {"n": 0, "k": 1, "blocks": []}
+    for n in (1, 2, 3):
+        for b in L.sample(rng, _parts(n), 40 if th else 10):
+            for k in (0, 1, 2):
+                yield {"n": n, "k": k, "blocks": b}
+    for n in (4, 5, 6, 8, 10):
+        got = 0
+        for p in nn._random_parts(rng, n, n, 400):
+            if len(p) == n:
+                yield {"n": n, "k": rng.choice([1, 2, 3]), "blocks": L.region_ids(n, n, p)}
+                got += 1
+                if got >= (10 if th else 3):
+                    break
